@@ -31,7 +31,7 @@ def run(rep, tier, seed):
     names = ["accept-and-hold", "operate-and-get-next", "accept-and-infer-next-history", "accept-line"]
     binds, seqs = private_binds(names)
     cases, maxe = [], {}
-    n = 900 if tier == "quick" else 12000
+    n = 3000 if tier == "quick" else 12000
     for ci in range(n):
         mode = rng.choice(["emacs", "vi"])
         size = rng.choice(SIZES)
